@@ -51,6 +51,60 @@ fn pathspec(p: &MMapPath) -> String {
     }
 }
 
+fn show_mapping(m: &MappingInfo) -> String {
+    format!(
+        "{},{},{},{},{},{},{}",
+        m.start_address, m.size, m.system_mapping_info.start_address, m.system_mapping_info.end_address,
+        m.offset, m.permissions.bits(),
+        match &m.name { Some(n) => format!("s{}", hex(n.as_bytes())), None => "n".into() }
+    )
+}
+
+/// the dumper's own mapping list of a live, stopped target — after its initialisation and after the public `init` has
+/// been run again on the same dumper (the target's memory map has not changed in between) — next to the target's
+/// /proc/<pid>/maps as read while it was stopped
+pub fn case_live(id: &str, r: &mut Rng, reinits: u64) -> String {
+    use minidump_writer::ptrace_dumper::PtraceDumper;
+    let sc = crate::c01::gen_scenario(r, false);
+    let t = match crate::live::Target::spawn(&sc.args) {
+        Ok(t) => t,
+        Err(_) => return format!("C13 {} kind=spawnfail", id),
+    };
+    let timeout = std::time::Duration::from_secs(2);
+    let mut errs = error_graph::ErrorList::default();
+    let mut d = match PtraceDumper::new_report_soft_errors(t.pid, timeout, Default::default(), &mut errs) {
+        Ok(d) => d,
+        Err(_) => return format!("C13 {} kind=live result=initfail", id),
+    };
+    for _ in 0..reinits {
+        let mut errs = error_graph::ErrorList::default();
+        if d.init(timeout, &mut errs).is_err() {
+            return format!("C13 {} kind=live result=initfail", id);
+        }
+    }
+    let text = std::fs::read_to_string(format!("/proc/{}/maps", t.pid)).unwrap_or_default();
+    let maps = match MemoryMaps::from_read(text.as_bytes()) {
+        Ok(m) => m,
+        Err(_) => return format!("C13 {} kind=live result=parsefail", id),
+    };
+    let lines: Vec<String> = maps
+        .iter()
+        .map(|m| format!("{},{},{},{},{}", m.address.0, m.address.1, m.perms.bits(), m.offset, pathspec(&m.pathname)))
+        .collect();
+    let out: Vec<String> = d.mappings.iter().map(show_mapping).collect();
+    let gate = d.auxv.get_linux_gate_address();
+    let entry = d.auxv.get_entry_address();
+    drop(d);
+    format!(
+        "C13 {} kind=live reinits={} gate={} entry={} lines={} result=ok out={}",
+        id, reinits,
+        gate.map(|g| g.to_string()).unwrap_or("-".into()),
+        entry.map(|g| g.to_string()).unwrap_or("-".into()),
+        if lines.is_empty() { "-".into() } else { lines.join(";") },
+        if out.is_empty() { "-".into() } else { out.join(";") }
+    )
+}
+
 pub fn run_text(tag: &str, id: &str, text: &str, gate: Option<u64>) -> String {
     let maps = match MemoryMaps::from_read(text.as_bytes()) {
         Ok(m) => m,
@@ -152,6 +206,13 @@ pub fn generate(seed: u64, tier: &str, out: &mut dyn std::io::Write) {
             _ => if lines.is_empty() { None } else { Some(lines[r.below(lines.len() as u64) as usize].s) },
         };
         writeln!(out, "{}", run_text("C13", &format!("r{}-{}", seed, i), &render(&lines), gate)).unwrap();
+    }
+    // live targets: the dumper's own list, also after `init` has been run again on the same dumper
+    let nl = if tier == "thorough" { 60 } else { 12 };
+    for i in 0..nl {
+        crate::rng::progress(&format!("v{}-{}", seed, i));
+        let mut r = Rng::for_case(seed, 1313, i);
+        writeln!(out, "{}", case_live(&format!("v{}-{}", seed, i), &mut r, i % 3)).unwrap();
     }
     // small-scope exhaustive: all sequences of ≤ 3 (quick) / ≤ 4 (thorough) lines over a 10-line alphabet,
     // contiguous or separated by one page
